@@ -233,6 +233,7 @@ func main() {
 	if *vkit.Mode == "race" {
 		racePass(res)
 		paillierRunsDry(res)
+		largeBodies(res)
 		res.Finish()
 		return
 	}
